@@ -16,7 +16,7 @@ pub struct WTab {
 }
 impl WTab {
     pub fn for_map(map: usize) -> WTab {
-        let keys: Vec<&str> = match map { 0 => vec!["Architecture", "Depends", "Package", "Uploaders"], 1 => vec!["A", "b-c", "z~", "~"], _ => vec!["0", "Build-Depends", "X", "x#y"] };
+        let keys: Vec<&str> = match map { 0 => vec!["Architecture", "Depends", "Package", "Uploaders"], 1 => vec!["A", "b-c", "z~", "~"], _ => vec!["0", "Build-Depends-Indep-With-A-Very-Long-Field-Name", "X", "x#y"] };   // (a name longer than any fixed buffer of blanks)
         let vals: [&str; 8] = match map {
             0 => ["one", "two", "three,", "aaa", "bbb", "a-very-long-first-line-value", "Joe <joe@example.com>,", "Ann <ann@example.com>"],
             1 => ["x: y", "é日", ":c,", "#1", "-2", "0123456789 0123456789", "a,b,", "c"],
